@@ -114,6 +114,14 @@ func (m *Machine) bigStub(fn *ssa.Function, args []Value) (Value, bool) {
 		if b := get(0); b.isConst() {
 			return m.newByteSlice(b.c.Bytes()), true
 		}
+		if m.bigBytesHavoc > 0 {
+			// effect analysis only: a fresh slice of the maximal length with unconstrained content
+			arr := ArrayV{}
+			for i := 0; i < m.bigBytesHavoc; i++ {
+				arr.elems = append(arr.elems, m.nondet("bytes", 8, false, nil, nil))
+			}
+			return SliceV{arr: m.newObj(arr, "bytes"), len: m.bigBytesHavoc, cap: m.bigBytesHavoc}, true
+		}
 	case "FillBytes":
 		buf := args[1].(SliceV)
 		b := get(0)
@@ -182,9 +190,18 @@ func (m *Machine) bigStub(fn *ssa.Function, args []Value) (Value, bool) {
 			return m.constInt(big.NewInt(int64(get(0).c.BitLen())), types.Typ[types.Int]), true
 		}
 	case "Bit":
-		if allConst(0) {
-			if k, ok := concreteInt(args[1]); ok {
+		if k, ok := concreteInt(args[1]); ok {
+			if allConst(0) {
 				return m.constInt(big.NewInt(int64(get(0).c.Bit(k))), types.Typ[types.Uint]), true
+			}
+			if m.intMode {
+				// bit k of a non-negative value: (v >> k) mod 2
+				q := m.bigLin(get(0))
+				if k > 0 {
+					q, _ = m.divmod(q, new(big.Int).Lsh(big.NewInt(1), uint(k)))
+				}
+				_, r := m.divmod(q, big.NewInt(2))
+				return VInt{lin: r}, true
 			}
 		}
 	case "Int64", "Uint64":
